@@ -13,12 +13,6 @@ Lemma alist_get_cons_ext {A} (l : list (pystr * A)) k v c :
   alist_get l c <> None -> alist_get ((k, v) :: l) c <> None.
 Proof. intro H. cbn [alist_get]. destruct (pystr_eqb k c); [discriminate|exact H]. Qed.
 
-Lemma ckey_eqb_item a b : ckey_eqb a b = true -> ckey_item a = ckey_item b.
-Proof.
-  destruct a as [[a1 a2] a3], b as [[b1 b2] b3]. cbn [ckey_eqb ckey_item snd]. intro H.
-  apply andb_true_iff in H as [_ H]. apply pystr_eqb_spec. exact H.
-Qed.
-
 (* the order in which own serializers appear: nothing is ever removed *)
 Definition ext (o o' : ownmap) : Prop := forall c, alist_get o c <> None -> alist_get o' c <> None.
 
@@ -152,51 +146,30 @@ Section Proofs.
     | _ => true
     end.
 
-  Lemma ser_now_own st v : fs_own (fst (ser_now sser ofast e ps st v)) = fs_own st.
-  Proof.
-    unfold ser_now. destruct v; try reflexivity.
-    destruct (call_ref e (run_gen sser ofast e ps (fs_own st) HFUEL) (fs_cache st) cls (resolve e ps (fs_own st) cls)
-                       (PStruct cls attrs)) as [ch r]. reflexivity.
-  Qed.
-
   Lemma run_op_grows st op :
-    ext (fs_own st) (fs_own (fst (run_op sser ofast e ps st op))) /\
-    (default_op op = true -> all_default (fs_own st) -> all_default (fs_own (fst (run_op sser ofast e ps st op)))).
+    ext st (fst (run_op sser ofast e ps st op)) /\
+    (default_op op = true -> all_default st -> all_default (fst (run_op sser ofast e ps st op))).
   Proof.
     destruct op as [cn sn compact|tr v|v|compact v]; cbn [run_op default_op].
-    - destruct (create_grows HFUEL cn {| sc_sn := sn; sc_compact := compact |} (fs_own st)) as [H1 H2].
-      destruct (create e ps HFUEL (fs_own st) cn {| sc_sn := sn; sc_compact := compact |}) as [own r]. cbn [fst fs_own] in *.
+    - destruct (create_grows HFUEL cn {| sc_sn := sn; sc_compact := compact |} st) as [H1 H2].
+      destruct (create e ps HFUEL st cn {| sc_sn := sn; sc_compact := compact |}) as [own r]. cbn [fst] in *.
       split; [exact H1|]. intros Hd Ha. apply H2; [exact Ha|].
       apply andb_true_iff in Hd as [Hs Hc]. apply negb_true_iff in Hs, Hc. subst. reflexivity.
-    - assert (Hg : ext (fs_own st) (fst (inst_tree e ps HFUEL (fs_own st) v)) /\
-                   (all_default (fs_own st) -> all_default (fst (inst_tree e ps HFUEL (fs_own st) v))))
-        by apply inst_tree_grows.
-      destruct tr.
-      + destruct v; try (destruct (inst_tree e ps HFUEL (fs_own st) _) as [own r]; cbn [fst fs_own] in *;
-                          destruct Hg as [H1 H2]; split; [exact H1|intros _; exact H2]).
-        destruct attrs.
-        * cbn [fst fs_own]. split; [apply ext_refl|intros _ H; exact H].
-        * destruct (inst_tree e ps HFUEL (fs_own st) _) as [own r]; cbn [fst fs_own] in *.
-          destruct Hg as [H1 H2]; split; [exact H1|intros _; exact H2].
-      + destruct (inst_tree e ps HFUEL (fs_own st) v) as [own r]; cbn [fst fs_own] in *.
-        destruct Hg as [H1 H2]; split; [exact H1|intros _; exact H2].
-    - rewrite ser_now_own. split; [apply ext_refl|intros _ H; exact H].
+    - destruct (inst_tree_grows HFUEL v st) as [H1 H2].
+      destruct (inst_tree e ps HFUEL st v) as [own r]. cbn [fst] in *. split; [exact H1|intros _; exact H2].
+    - cbn [fst]. split; [apply ext_refl|intros _ H; exact H].
     - destruct v; try (cbn [fst]; split; [apply ext_refl|intros _ H; exact H]).
-      destruct (alist_get (fs_own st) cls).
-      + rewrite ser_now_own. split; [apply ext_refl|intros _ H; exact H].
-      + destruct (create_grows HFUEL cls {| sc_sn := false; sc_compact := compact |} (fs_own st)) as [H1 H2].
-        destruct (create e ps HFUEL (fs_own st) cls {| sc_sn := false; sc_compact := compact |}) as [own r].
-        cbn [fst] in H1, H2. destruct r.
-        * rewrite ser_now_own. cbn [fs_own]. split; [exact H1|].
-          intros Hd Ha. apply H2; [exact Ha|]. apply negb_true_iff in Hd. subst. reflexivity.
-        * cbn [fst fs_own]. split; [exact H1|].
-          intros Hd Ha. apply H2; [exact Ha|]. apply negb_true_iff in Hd. subst. reflexivity.
+      destruct (alist_get st cls).
+      + cbn [fst]. split; [apply ext_refl|intros _ H; exact H].
+      + destruct (create_grows HFUEL cls {| sc_sn := false; sc_compact := compact |} st) as [H1 H2].
+        destruct (create e ps HFUEL st cls {| sc_sn := false; sc_compact := compact |}) as [own r].
+        cbn [fst] in H1, H2. destruct r; cbn [fst]; (split; [exact H1|]);
+          intros Hd Ha; (apply H2; [exact Ha|]); apply negb_true_iff in Hd; subst; reflexivity.
   Qed.
 
   Lemma run_ops_grows ops : forall st,
-      ext (fs_own st) (fs_own (fst (run_ops sser ofast e ps st ops))) /\
-      (forallb default_op ops = true -> all_default (fs_own st) ->
-       all_default (fs_own (fst (run_ops sser ofast e ps st ops)))).
+      ext st (fst (run_ops sser ofast e ps st ops)) /\
+      (forallb default_op ops = true -> all_default st -> all_default (fst (run_ops sser ofast e ps st ops))).
   Proof.
     induction ops as [|op t IH]; intro st; cbn [run_ops forallb].
     - cbn [fst]. split; [apply ext_refl|intros _ H; exact H].
@@ -208,26 +181,16 @@ Section Proofs.
       intros Hd Ha. apply andb_true_iff in Hd as [Hd1 Hd2]. apply H4; [exact Hd2|]. apply H2; assumption.
   Qed.
 
-  (* A1: once a constructor of class cn has returned, cn has a serializer of its own in every later state *)
+  (* A1: once a constructor of class cn has returned - the regular one or from_trusted_data, with or without
+     keywords - cn has a serializer of its own in every later state *)
   Theorem instantiated_keeps_serializer st tr cn a rest :
-    (tr = false \/ a <> []) ->
     snd (run_op sser ofast e ps st (HInst tr (PStruct cn a))) = Ok PNone ->
-    alist_get (fs_own (fst (run_ops sser ofast e ps (fst (run_op sser ofast e ps st (HInst tr (PStruct cn a)))) rest))) cn
-    <> None.
+    alist_get (fst (run_ops sser ofast e ps (fst (run_op sser ofast e ps st (HInst tr (PStruct cn a)))) rest)) cn <> None.
   Proof.
-    intros Hk Hok.
-    assert (Hown : alist_get (fs_own (fst (run_op sser ofast e ps st (HInst tr (PStruct cn a))))) cn <> None).
+    intros Hok.
+    assert (Hown : alist_get (fst (run_op sser ofast e ps st (HInst tr (PStruct cn a)))) cn <> None).
     { cbn [run_op] in *.
-      assert (Hcase : (let '(own, r) := inst_tree e ps HFUEL (fs_own st) (PStruct cn a) in
-                       ({| fs_own := own; fs_cache := fs_cache st |}, unit_res r)) =
-                      (let '(own, r) := match tr, PStruct cn a with
-                                        | true, PStruct _ [] => (fs_own st, Ok tt)
-                                        | _, _ => inst_tree e ps HFUEL (fs_own st) (PStruct cn a)
-                                        end in
-                       ({| fs_own := own; fs_cache := fs_cache st |}, unit_res r))).
-      { destruct tr; [|reflexivity]. destruct a; [|reflexivity]. destruct Hk as [Hk|Hk]; [discriminate|contradiction]. }
-      rewrite <- Hcase in *. clear Hcase.
-      destruct (inst_tree e ps HFUEL (fs_own st) (PStruct cn a)) as [own r] eqn:Hi. cbn [fst snd fs_own] in *.
+      destruct (inst_tree e ps HFUEL st (PStruct cn a)) as [own r] eqn:Hi. cbn [fst snd] in *.
       destruct r as [[]|x]; [|discriminate]. exact (inst_tree_ok _ _ _ _ _ Hi). }
     destruct (run_ops_grows rest (fst (run_op sser ofast e ps st (HInst tr (PStruct cn a))))) as [H _].
     apply H, Hown.
@@ -236,7 +199,7 @@ Section Proofs.
   (* A2: a history whose explicit create_serializer calls all use the default flags leaves every installed
      serializer generated with the default flags *)
   Theorem default_history_default_confs ops :
-    forallb default_op ops = true -> all_default (fs_own (fst (run_ops sser ofast e ps st0 ops))).
+    forallb default_op ops = true -> all_default (fst (run_ops sser ofast e ps st0 ops)).
   Proof.
     intro H. destruct (run_ops_grows ops st0) as [_ Hd]. apply Hd; [exact H|]. constructor.
   Qed.
@@ -247,28 +210,11 @@ Section Proofs.
     inversion H as [|p l Hp Ht]. subst. destruct (pystr_eqb k c); [exact Hp|apply IH, Ht].
   Qed.
 
-  (* A3: operations other than serializations never touch the per-field caches *)
-  Definition is_ser (op : hop) : bool := match op with HSer _ | HSerVia _ _ => true | _ => false end.
+  (* A3: a serialization changes nothing (there is no per-field state any more) *)
+  Definition is_ser (op : hop) : bool := match op with HSer _ => true | _ => false end.
 
-  Lemma run_op_cache st op : is_ser op = false -> fs_cache (fst (run_op sser ofast e ps st op)) = fs_cache st.
-  Proof.
-    destruct op as [cn sn compact|tr v| |]; cbn [is_ser run_op]; try discriminate; intros _.
-    - destruct (create e ps HFUEL (fs_own st) cn _) as [own r]. reflexivity.
-    - destruct (match tr, v with | true, PStruct _ [] => (fs_own st, Ok tt) | _, _ => inst_tree e ps HFUEL (fs_own st) v end)
-        as [own r]. reflexivity.
-  Qed.
-
-  Lemma run_ops_cache ops : forall st,
-      forallb (fun op => negb (is_ser op)) ops = true ->
-      fs_cache (fst (run_ops sser ofast e ps st ops)) = fs_cache st.
-  Proof.
-    induction ops as [|op t IH]; intros st H; cbn [run_ops forallb] in *; [reflexivity|].
-    apply andb_true_iff in H as [H1 H2]. apply negb_true_iff in H1.
-    pose proof (run_op_cache st op H1) as Hc.
-    destruct (run_op sser ofast e ps st op) as [st1 r]. cbn [fst] in Hc.
-    pose proof (IH st1 H2) as Hc2.
-    destruct (run_ops sser ofast e ps st1 t) as [st2 rs]. cbn [fst] in *. congruence.
-  Qed.
+  Lemma run_op_ser st op : is_ser op = true -> fst (run_op sser ofast e ps st op) = st.
+  Proof. destruct op; cbn [is_ser run_op]; try discriminate. reflexivity. Qed.
 
   (* ================================================================ B. late binding: the state does not matter *)
 
@@ -281,188 +227,100 @@ Section Proofs.
     end.
   Definition class_refs (c : tclass) : list pystr := flat_map (fun fd => refs (f_ty fd)) (t_fields c).
 
-  Inductive reach : pystr -> pystr -> Prop :=
-  | reach_refl c : reach c c
-  | reach_step a b c cd : find_tclass e a = Some cd -> In b (class_refs cd) -> reach b c -> reach a c.
-
-  Lemma reach_trans a b c : reach a b -> reach b c -> reach a c.
-  Proof. induction 1; intro H2; [exact H2|]. eapply reach_step; eauto. Qed.
-
   Variable own : ownmap.
   Variable cf : pystr -> sconf.
 
-  (* every class that can be reached from k has a serializer of its own, generated with the flags cf says,
-     and refers to other classes only in the modelled shapes *)
-  Definition closed (k : pystr) : Prop :=
-    forall c, reach k c ->
-              alist_get own c = Some (cf c) /\
-              forall cd fd, find_tclass e c = Some cd -> In fd (t_fields cd) -> shape_ok (f_ty fd) = true.
+  (* the structures a field value holds in the positions of class references *)
+  Fixpoint held (P : pyval -> Prop) (tf : tfield) (v : pyval) : Prop :=
+    match tf with
+    | TArray i => match v with PList l => Forall (held P i) l | _ => True end
+    | TSet i => match v with PSet _ l => Forall (held P i) l | _ => True end
+    | TRef _ => P v
+    | TOpt _ f => held P f v
+    | _ => True
+    end.
 
-  Lemma closed_step k cd b : closed k -> find_tclass e k = Some cd -> In b (class_refs cd) -> closed b.
-  Proof.
-    intros Hc Hf Hb c Hr. apply Hc. eapply reach_step; eauto.
-  Qed.
-
-  Definition fresh (ch : cache) : Prop :=
-    forall k f, cache_get ch k = Some f -> f = resolve e ps own (ckey_item k).
+  (* the closure of class k is applied to v: every structure it reaches - in v's fields, in their fields... -
+     is an instance of a class that has a serializer of its own, generated with the flags cf says
+     (whatever class the field that holds it was declared with) *)
+  Fixpoint closed (fuel : nat) (k : pystr) (v : pyval) : Prop :=
+    match fuel with
+    | O => True
+    | S n =>
+        match find_tclass e k, v with
+        | Some c, PStruct _ a =>
+            forall fd, In fd (t_fields c) ->
+                       held (fun x => match x with
+                                      | PStruct rn _ => (class_is_fast e rn = true -> alist_get own rn = Some (cf rn)) /\
+                                                        closed n rn x
+                                      | _ => True
+                                      end) (f_ty fd) (getattr_m c a (f_name fd))
+        | _, _ => True
+        end
+    end.
 
   Lemma resolve_own c x : alist_get own c = Some x -> resolve e ps own c = SGen c x.
   Proof. unfold resolve. intro H. destruct (length e); cbn [resolve_n]; rewrite H; reflexivity. Qed.
 
-  Lemma freeze_fresh ch k :
-    fresh ch -> fresh (fst (freeze e ps own ch k)) /\ snd (freeze e ps own ch k) = resolve e ps own (ckey_item k).
+  Lemma mapM_Forall_ext {A B} (f g : A -> res B) (P : A -> Prop) l :
+    (forall x, P x -> f x = g x) -> Forall P l -> mapM f l = mapM g l.
   Proof.
-    intro Hf. unfold freeze. destruct (cache_get ch k) as [f|] eqn:Hg; cbn [fst snd].
-    - split; [exact Hf|apply Hf, Hg].
-    - split; [|reflexivity]. intros k' f' H'. cbn [cache_get] in H'.
-      destruct (ckey_eqb k k') eqn:Hk.
-      + inversion H'. subst. rewrite (ckey_eqb_item _ _ Hk). reflexivity.
-      + apply Hf, H'.
+    intros H HP. induction HP as [|x t Hx Ht IH]; cbn [mapM]; [reflexivity|]. rewrite (H x Hx), IH. reflexivity.
   Qed.
 
-  (* a step that threads the cache simulates a pure function *)
-  Definition sim {A B} (f : cache -> A -> stres B) (g : A -> res B) : Prop :=
-    forall ch x, fresh ch -> exists ch', f ch x = (ch', g x) /\ fresh ch'.
-
-  Lemma mapM_st_sim {A B} (f : cache -> A -> stres B) g : sim f g -> sim (mapM_st f) (mapM g).
+  Lemma fast_val_held fc1 fc2 (P : pyval -> Prop) :
+    (forall c x, P x -> fc1 c x = fc2 c x) ->
+    forall tf v, held P tf v -> fast_val sser ofast fc1 tf v = fast_val sser ofast fc2 tf v.
   Proof.
-    intros Hs ch l. revert ch. induction l as [|x t IH]; intros ch Hf; cbn [mapM_st mapM].
-    - exists ch. split; [reflexivity|exact Hf].
-    - destruct (Hs ch x Hf) as [ch1 [E1 F1]]. rewrite E1. destruct (g x) as [y|ex]; cbn [bind].
-      + destruct (IH ch1 F1) as [ch2 [E2 F2]]. rewrite E2. destruct (mapM g t); cbn [bind]; exists ch2; split; auto.
-      + exists ch1. split; auto.
+    intro H. induction tf as [l|item IH|item IH|c|nf f IH|ls|id o]; intros v Hh; cbn [fast_val held] in *; try reflexivity.
+    - destruct v; try reflexivity. rewrite (mapM_Forall_ext _ _ _ l IH Hh). reflexivity.
+    - destruct v; try reflexivity. rewrite (mapM_Forall_ext _ _ _ l IH Hh). reflexivity.
+    - apply H, Hh.
+    - apply IH, Hh.
   Qed.
 
-  Lemma fast_val_noref fc1 fc2 : forall tf v,
-      has_ref tf = false -> fast_val sser ofast e fc1 tf v = fast_val sser ofast e fc2 tf v.
+  Lemma fast_fields_In fv1 fv2 c a : forall fs,
+      (forall fd, In fd fs -> fv1 (f_ty fd) (getattr_m c a (f_name fd)) = fv2 (f_ty fd) (getattr_m c a (f_name fd))) ->
+      fast_fields fv1 c a fs = fast_fields fv2 c a fs.
   Proof.
-    induction tf as [l|item IH|item IH|c|nf f IH|ls|id o]; intros v H; cbn [has_ref] in H; try discriminate;
-      cbn [fast_val]; try reflexivity.
-    - destruct v; try reflexivity. rewrite (mapM_ext _ _ l (fun x => IH x H)). reflexivity.
-    - destruct v; try reflexivity. rewrite (mapM_ext _ _ l (fun x => IH x H)). reflexivity.
-    - apply IH, H.
+    induction fs as [|fd t IH]; intro H; cbn [fast_fields]; [reflexivity|].
+    rewrite (IH (fun fd' Hin => H fd' (or_intror Hin))).
+    destruct (is_none (getattr_m c a (f_name fd))); [reflexivity|].
+    pose proof (H fd (or_introl eq_refl)) as Hfd.
+    destruct (f_ty fd) as [[f| | |id b]| | | | | |]; try rewrite Hfd; try reflexivity.
+    destruct b; [reflexivity|rewrite Hfd; reflexivity].
   Qed.
 
-  Lemma fast_val_strip fc : forall tf v, fast_val sser ofast e fc tf v = fast_val sser ofast e fc (strip_opt tf) v.
-  Proof. induction tf; intro v; cbn [strip_opt fast_val]; try reflexivity. apply IHtf. Qed.
-
-  Lemma refs_strip tf : refs (strip_opt tf) = refs tf.
-  Proof. induction tf; cbn [strip_opt refs]; try reflexivity. exact IHtf. Qed.
-
-  (* the callback of the order-free reading *)
-  Definition FC (n : nat) (c' : pystr) (x : pyval) : res pyval :=
-    match find_tclass e c' with
-    | Some cd => if t_fast cd then sfast sser ofast e cf n c' x else Raise TypeError
-    | None => Raise Unmodelled
-    end.
-
-  Section Step.
-    Variable n : nat.
-    (* induction hypothesis on the fuel *)
-    Hypothesis IHn : forall k, closed k -> sim (fun ch v => run_gen sser ofast e ps own n ch k (cf k) v)
-                                               (fun v => sfast sser ofast e cf n k v).
-
-    Lemma call_ref_sim c : closed c ->
-      sim (fun ch x => call_ref e (run_gen sser ofast e ps own n) ch c (resolve e ps own c) x) (FC n c).
-    Proof.
-      intros Hc ch x Hf. unfold call_ref, FC.
-      destruct (find_tclass e c) as [cd|]; [|exists ch; split; auto].
-      destruct (t_fast cd); [|exists ch; split; auto].
-      destruct (Hc c (reach_refl c)) as [Ho _]. rewrite (resolve_own _ _ Ho).
-      apply (IHn c Hc ch x Hf).
-    Qed.
-
-    Lemma dyn_val_sim dc fname tf :
-      shape_ok tf = true -> (forall c, In c (refs tf) -> closed c) ->
-      sim (fun ch x => dyn_val sser ofast e ps own (run_gen sser ofast e ps own n) dc fname ch tf x)
-          (fun x => fast_val sser ofast e (FC n) tf x).
-    Proof.
-      intros Hs Hr ch x Hf. unfold dyn_val.
-      destruct (has_ref tf) eqn:Hh; cbn [negb].
-      - rewrite (fast_val_strip (FC n) tf x). rewrite <- refs_strip in Hr.
-        unfold shape_ok in Hs. rewrite Hh in Hs. cbn [negb orb] in Hs.
-        destruct (strip_opt tf) as [l|item|item|c|nf f|ls|id o]; try discriminate.
-        + (* Array of a class *)
-          destruct item as [ | | |c| | | ]; try discriminate.
-          assert (Hc : closed c) by (apply Hr; cbn [refs]; left; reflexivity).
-          cbn [fast_val]. destruct x; try (exists ch; split; [reflexivity|exact Hf]).
-          destruct (class_is_fast e c); cbn [bind]; [|exists ch; split; [reflexivity|exact Hf]].
-          destruct (freeze_fresh ch (dc, fname, c) Hf) as [F1 E1].
-          destruct (freeze e ps own ch (dc, fname, c)) as [ch1 f]. cbn [fst snd ckey_item] in *. subst f.
-          destruct (mapM_st_sim _ _ (call_ref_sim c Hc) ch1 l F1) as [ch2 [E2 F2]].
-          rewrite E2. fold (FC n c). destruct (mapM (FC n c) l); cbn [wrap_list bind]; exists ch2; split; auto.
-        + (* Set of a class *)
-          destruct item as [ | | |c| | | ]; try discriminate.
-          assert (Hc : closed c) by (apply Hr; cbn [refs]; left; reflexivity).
-          cbn [fast_val]. destruct x; try (exists ch; split; [reflexivity|exact Hf]).
-          destruct (class_is_fast e c); cbn [bind]; [|exists ch; split; [reflexivity|exact Hf]].
-          destruct (freeze_fresh ch (dc, fname, c) Hf) as [F1 E1].
-          destruct (freeze e ps own ch (dc, fname, c)) as [ch1 f]. cbn [fst snd ckey_item] in *. subst f.
-          destruct (mapM_st_sim _ _ (call_ref_sim c Hc) ch1 l F1) as [ch2 [E2 F2]].
-          rewrite E2. fold (FC n c). destruct (mapM (FC n c) l); cbn [wrap_list bind]; exists ch2; split; auto.
-        + (* a direct (or Optional) reference: whatever the class's serialize is now *)
-          assert (Hc : closed c) by (apply Hr; cbn [refs]; left; reflexivity).
-          cbn [fast_val]. apply (call_ref_sim c Hc ch x Hf).
-      - exists ch. split; [|exact Hf]. rewrite (fast_val_noref (no_class) (FC n) tf x Hh). reflexivity.
-    Qed.
-
-    Lemma dyn_fields_sim k c a fs :
-      (forall fd, In fd fs -> shape_ok (f_ty fd) = true /\ forall c', In c' (refs (f_ty fd)) -> closed c') ->
-      forall ch, fresh ch ->
-      exists ch', dyn_fields (fun fname ch' tf x => dyn_val sser ofast e ps own (run_gen sser ofast e ps own n)
-                                                            (decl_of e ps k fname) fname ch' tf x) c a ch fs
-                  = (ch', fast_fields (fast_val sser ofast e (FC n)) c a fs) /\ fresh ch'.
-    Proof.
-      induction fs as [|fd t IH]; intros Hfs ch Hf; cbn [dyn_fields fast_fields].
-      - exists ch. split; auto.
-      - destruct (Hfs fd (or_introl eq_refl)) as [Hs Hr].
-        assert (Hstep : exists ch1,
-                   (if is_none (getattr_m c a (f_name fd)) then (ch, Ok PNone)
-                    else match f_ty fd with
-                         | TLeaf (LSer _ true) => (ch, Ok (getattr_m c a (f_name fd)))
-                         | tf => dyn_val sser ofast e ps own (run_gen sser ofast e ps own n) (decl_of e ps k (f_name fd))
-                                         (f_name fd) ch tf (getattr_m c a (f_name fd))
-                         end) =
-                   (ch1, if is_none (getattr_m c a (f_name fd)) then Ok PNone
-                         else match f_ty fd with
-                              | TLeaf (LSer _ true) => Ok (getattr_m c a (f_name fd))
-                              | tf => fast_val sser ofast e (FC n) tf (getattr_m c a (f_name fd))
-                              end) /\ fresh ch1).
-        { destruct (is_none (getattr_m c a (f_name fd))); [exists ch; split; auto|].
-          pose proof (dyn_val_sim (decl_of e ps k (f_name fd)) (f_name fd) (f_ty fd) Hs Hr ch
-                                  (getattr_m c a (f_name fd)) Hf) as Hd.
-          destruct (f_ty fd) as [[f| | |id b]| | | | | |]; try exact Hd.
-          destruct b; [exists ch; split; auto|exact Hd]. }
-        destruct Hstep as [ch1 [E1 F1]]. rewrite E1.
-        destruct (if is_none (getattr_m c a (f_name fd)) then Ok PNone else _) as [w|ex]; cbn [bind].
-        + destruct (IH (fun fd' Hin => Hfs fd' (or_intror Hin)) ch1 F1) as [ch2 [E2 F2]]. rewrite E2.
-          destruct (fast_fields (fast_val sser ofast e (FC n)) c a t); cbn [bind]; exists ch2; split; auto.
-        + exists ch1. split; auto.
-    Qed.
-  End Step.
-
-  (* B1: in a state where every class reachable from k has its own serializer and the caches are fresh, the
-     closure of k returns what the order-free reading returns, and leaves the caches fresh *)
-  Lemma run_gen_sim : forall n k, closed k ->
-      sim (fun ch v => run_gen sser ofast e ps own n ch k (cf k) v) (fun v => sfast sser ofast e cf n k v).
+  (* B1: in ANY state in which the classes of the structures the closure of k reaches have serializers of their own,
+     that closure returns what the order-free reading returns (each structure serialized by the declaration of
+     its own class, with its own flags) *)
+  Theorem run_gen_sfast : forall n k v,
+      closed n k v -> run_gen sser ofast e ps own n k (cf k) v = sfast sser ofast e cf n k v.
   Proof.
-    induction n as [|n IH]; intros k Hc ch v Hf; cbn [run_gen sfast].
-    - exists ch. split; auto.
-    - destruct (find_tclass e k) as [c|] eqn:Hk; [|exists ch; split; auto].
-      destruct v; try (exists ch; split; [reflexivity|exact Hf]).
-      assert (Hfs : forall fd, In fd (t_fields c) ->
-                               shape_ok (f_ty fd) = true /\ forall c', In c' (refs (f_ty fd)) -> closed c').
-      { intros fd Hin. split.
-        - destruct (Hc k (reach_refl k)) as [_ Hs]. apply (Hs c fd Hk Hin).
-        - intros c' Hc'. apply (closed_step k c c' Hc Hk). unfold class_refs. apply in_flat_map. exists fd. split; auto. }
-      destruct (dyn_fields_sim n IH k c attrs (t_fields c) Hfs ch Hf) as [ch1 [E1 F1]].
-      fold (FC n). destruct (t_mapper c); try (exists ch; split; [reflexivity|exact Hf]);
-        rewrite E1; destruct (fast_fields (fast_val sser ofast e (FC n)) c attrs (t_fields c)); cbn [bind];
-        exists ch1; split; auto.
+    induction n as [|n IH]; intros k v Hc; cbn [run_gen sfast]; [reflexivity|].
+    cbn [closed] in Hc.
+    destruct (find_tclass e k) as [c|] eqn:Hk; [|reflexivity].
+    destruct v as [| | | | | | | | | |rn a| ]; try reflexivity.
+    assert (Hcb : forall (c' : pystr) x,
+               match x with
+               | PStruct rn' _ => (class_is_fast e rn' = true -> alist_get own rn' = Some (cf rn')) /\ closed n rn' x
+               | _ => True
+               end ->
+               call_obj e ps (run_gen sser ofast e ps own n) own x = by_class e (sfast sser ofast e cf n) x).
+    { intros c' x Hx. unfold call_obj, by_class.
+      destruct x as [| | | | | | | | | |rn' a'| ]; try reflexivity.
+      destruct (find_tclass e rn') as [cd|] eqn:Hf; [|reflexivity].
+      destruct (t_fast cd) eqn:Ht; [|reflexivity].
+      destruct Hx as [Ho Hcl].
+      assert (Hfast : class_is_fast e rn' = true) by (unfold class_is_fast; rewrite Hf; exact Ht).
+      rewrite (resolve_own _ _ (Ho Hfast)). apply IH, Hcl. }
+    rewrite (fast_fields_In _ (fast_val sser ofast (fun _ x => by_class e (sfast sser ofast e cf n) x)) c a (t_fields c)).
+    - reflexivity.
+    - intros fd Hin. exact (fast_val_held _ _ _ Hcb (f_ty fd) _ (Hc fd Hin)).
   Qed.
 End Proofs.
 
-(* ================================================================ B2. settled histories *)
+(* ================================================================ B2. histories *)
 
 Section Settled.
   Variable sser : N -> pyval -> res pyval.
@@ -476,6 +334,12 @@ Section Settled.
   Lemma conf_of_own own c x : alist_get own c = Some x -> conf_of own c = x.
   Proof. unfold conf_of. intro H. rewrite H. reflexivity. Qed.
 
+  Definition has_own (own : ownmap) (c : pystr) : bool :=
+    match alist_get own c with Some _ => true | None => false end.
+
+  Lemma has_own_conf own c : has_own own c = true -> alist_get own c = Some (conf_of own c).
+  Proof. unfold has_own, conf_of. destruct (alist_get own c); [reflexivity|discriminate]. Qed.
+
   (* what the order-free reading says a serialization returns *)
   Definition expected (own : ownmap) (op : hop) : res pyval :=
     match op with
@@ -484,37 +348,69 @@ Section Settled.
     end.
 
   Definition good_ser (own : ownmap) (op : hop) : Prop :=
-    exists cn a, op = HSer (PStruct cn a) /\ class_is_fast e cn = true /\ closed e own (conf_of own) cn.
+    exists cn a, op = HSer (PStruct cn a) /\ class_is_fast e cn = true /\ has_own own cn = true /\
+                 closed e own (conf_of own) HFUEL cn (PStruct cn a).
 
-  Lemma sers_sim own sers : forall st,
-      fs_own st = own -> fresh e ps own (fs_cache st) ->
-      (forall op, In op sers -> good_ser own op) ->
-      snd (run_ops sser ofast e ps st sers) = map (expected own) sers.
+  (* one x.serialize() in a state *)
+  Lemma ser_now_expected own cn a :
+    class_is_fast e cn = true -> has_own own cn = true -> closed e own (conf_of own) HFUEL cn (PStruct cn a) ->
+    ser_now sser ofast e ps own (PStruct cn a) = sfast sser ofast e (conf_of own) HFUEL cn (PStruct cn a).
   Proof.
-    induction sers as [|op t IH]; intros st Ho Hf Hg; cbn [run_ops map]; [reflexivity|].
-    destruct (Hg op (or_introl eq_refl)) as [cn [a [Eop [Hfast Hc]]]]. subst op.
-    cbn [run_op ser_now expected].
-    destruct (class_is_fast_find cn Hfast) as [cd [Hfind Htf]].
-    rewrite Ho. destruct (Hc cn (reach_refl e cn)) as [Hown _].
-    rewrite (resolve_own e ps own cn _ Hown). unfold call_ref. rewrite Hfind, Htf.
-    destruct (run_gen_sim sser ofast e ps own (conf_of own) HFUEL cn Hc (fs_cache st) (PStruct cn a) Hf) as [ch1 [E1 F1]].
-    rewrite E1.
-    specialize (IH {| fs_own := own; fs_cache := ch1 |} eq_refl F1 (fun op Hin => Hg op (or_intror Hin))).
-    destruct (run_ops sser ofast e ps {| fs_own := own; fs_cache := ch1 |} t) as [st2 rs]. cbn [snd] in *.
-    rewrite IH. reflexivity.
+    intros Hfast Ho Hc. unfold ser_now, call_obj, by_class.
+    destruct (class_is_fast_find cn Hfast) as [cd [Hfind Htf]]. rewrite Hfind, Htf.
+    rewrite (resolve_own e ps own cn _ (has_own_conf own cn Ho)).
+    apply run_gen_sfast, Hc.
   Qed.
 
-  (* B2: whatever the order of the class definitions, create_serializer calls and instantiations was, the
-     serializations that follow return what the order-free reading returns for the flags each class ended
-     up with - provided every class reachable from the serialized instance's class has its own serializer *)
-  Theorem settled_history ops sers :
-    forallb (fun op => negb (is_ser op)) ops = true ->
-    let st1 := fst (run_ops sser ofast e ps st0 ops) in
-    (forall op, In op sers -> good_ser (fs_own st1) op) ->
-    snd (run_ops sser ofast e ps st1 sers) = map (expected (fs_own st1)) sers.
+  Lemma sers_sim own sers :
+      (forall op, In op sers -> good_ser own op) ->
+      run_ops sser ofast e ps own sers = (own, map (expected own) sers).
   Proof.
-    intros Hns st1 Hg. apply sers_sim; [reflexivity| |exact Hg].
-    unfold st1. rewrite (run_ops_cache sser ofast e ps ops st0 Hns). cbn [st0 fs_cache].
-    intros k f H. discriminate.
+    induction sers as [|op t IH]; intros Hg; cbn [run_ops map]; [reflexivity|].
+    destruct (Hg op (or_introl eq_refl)) as [cn [a [Eop [Hfast [Ho Hc]]]]]. subst op.
+    cbn [run_op expected]. rewrite (ser_now_expected own cn a Hfast Ho Hc).
+    rewrite (IH (fun op Hin => Hg op (or_intror Hin))). reflexivity.
+  Qed.
+
+  (* B2: whatever the history was - class definitions, create_serializer calls with any flags, instantiations
+     AND serializations, in any order -, the serializations that follow return what the order-free reading returns
+     for the flags each class ended up with, provided the classes of the structures they reach have serializers
+     of their own *)
+  Theorem settled_history ops sers :
+    let st1 := fst (run_ops sser ofast e ps st0 ops) in
+    (forall op, In op sers -> good_ser st1 op) ->
+    snd (run_ops sser ofast e ps st1 sers) = map (expected st1) sers.
+  Proof.
+    intros st1 Hg. rewrite (sers_sim st1 sers Hg). reflexivity.
+  Qed.
+
+  (* a decidable sufficient condition: every FastSerializable class of the family has a serializer of its own *)
+  Definition all_own (own : ownmap) : bool := forallb (fun c => negb (t_fast c) || has_own own (t_name c)) e.
+
+  Lemma find_tclass_In' n c : find_tclass e n = Some c -> In c e /\ t_name c = n.
+  Proof.
+    induction e as [|d t IH]; cbn [find_tclass]; [discriminate|].
+    destruct (pystr_eqb (t_name d) n) eqn:E; intro H.
+    - inversion H. subst. split; [left; reflexivity|apply pystr_eqb_spec, E].
+    - destruct (IH H) as [H1 H2]. split; [right; exact H1|exact H2].
+  Qed.
+
+  Lemma all_own_fast own rn : all_own own = true -> class_is_fast e rn = true -> alist_get own rn = Some (conf_of own rn).
+  Proof.
+    intros Ha Hf. destruct (class_is_fast_find rn Hf) as [cd [Hfind Htf]].
+    destruct (find_tclass_In' rn cd Hfind) as [Hin Hn]. unfold all_own in Ha. rewrite forallb_forall in Ha.
+    specialize (Ha cd Hin). rewrite Htf, Hn in Ha. cbn [negb orb] in Ha. apply has_own_conf, Ha.
+  Qed.
+
+  Lemma all_own_closed own : all_own own = true -> forall n k v, closed e own (conf_of own) n k v.
+  Proof.
+    intro Ha. induction n as [|n IH]; intros k v; cbn [closed]; [exact I|].
+    destruct (find_tclass e k) as [c|]; [|exact I]. destruct v; try exact I.
+    intros fd _. generalize (getattr_m c attrs (f_name fd)). generalize (f_ty fd).
+    induction t as [l|item IHt|item IHt|c'|nf f IHt|ls|id o]; intro x; cbn [held]; try exact I.
+    - destruct x; try exact I. apply Forall_forall. intros y _. apply IHt.
+    - destruct x; try exact I. apply Forall_forall. intros y _. apply IHt.
+    - destruct x as [| | | | | | | | | |rn' a'| ]; try exact I. split; [apply (all_own_fast own rn' Ha)|apply IH].
+    - apply IHt.
   Qed.
 End Settled.
